@@ -25,7 +25,7 @@ EXPLANATION = ("The real get_system_tb_py runs on duck-typed model objects (exac
                "by the real importer; the two systems must be identical polynomials in the parameters.")
 ASSUMPTIONS = ["TBmodels: model.hop holds R=0 and one of each +-R pair (what tbmodels.Model stores)", "PythTB: (i,j,R) and its conjugate partner (j,i,-R) are not both listed; no R=0 i==j hopping (both rejected by pythtb itself)",
                "lattice vectors and orbital positions are concrete (enumerated), amplitudes symbolic"]
-OUTSIDE = ["band energies themselves (eigenvalues): equality of H(k) up to a diagonal unitary gauge implies equal energies", "other bundled builders have no TBmodels twin (only the Haldane pair exists)",
+OUTSIDE = ["whether reducing PythTB orbital positions into the home cell without shifting the hopping R-vectors preserves position-dependent quantities (energies are unaffected; only centres == positions mod lattice vectors is demanded)", "band energies themselves (eigenvalues): equality of H(k) up to a diagonal unitary gauge implies equal energies", "other bundled builders have no TBmodels twin (only the Haldane pair exists)",
            "pythtb/tbmodels internals: the recording stand-ins implement the documented set_onsite/set_hop/add_hop/on_site semantics and are validated against the installed libraries on concrete parameters",
            "symbolic-k identity treats the phases of different R as independent unit-circle atoms and removes the PythTB position phases analytically; the full convention-I formula is checked at concrete k"]
 STUBS = ["pythtb stand-in module (__version__, Lattice, TBModel / tb_model with set_onsite, set_hop recording what the real classes expose: lat_vecs/_lat, get_orb_vecs/_orb, norb/_norb, hoppings/_hoppings, _nspin, _site_energies)",
@@ -58,7 +58,7 @@ class Duck:
 
 
 LATS = {1: [[1.3]], 2: [[1.0, 0.0], [0.5, 0.9]], 3: [[1.0, 0.1, 0.0], [0.2, 1.1, 0.0], [0.0, 0.3, 0.8]]}
-POS = {1: [[0.0], [0.25], [0.6]], 2: [[1 / 3, 1 / 3], [2 / 3, 0.5], [0.1, 0.8]], 3: [[0.0, 0.0, 0.0], [0.25, 0.5, 0.125], [0.5, 0.75, 0.3]], }
+POS = {1: [[0.0], [0.25], [0.6], [0.85]], 2: [[1 / 3, 1 / 3], [2 / 3, 0.5], [0.1, 0.8], [0.55, 0.05]], 3: [[0.0, 0.0, 0.0], [0.25, 0.5, 0.125], [0.5, 0.75, 0.3], [0.7, 0.2, 0.9]], }
 
 
 def tbm_duck(dim, size, hop):
@@ -70,10 +70,17 @@ def tbm_duck(dim, size, hop):
     return m
 
 
+def ptb_pos(dim, norb):
+    """PythTB accepts orbital positions outside the home cell: the last orbital is moved out"""
+    pos = [list(p) for p in POS[dim][:norb]]
+    pos[-1] = [x + (1 if a == 0 else -1) for a, x in enumerate(pos[-1])]
+    return pos
+
+
 def ptb_duck(layout, dim, norb, nspin, hops, onsite):
     """hops: list of (amp, i, j, R tuple)"""
     m = Duck()
-    lat, orb = np.array(LATS[dim]), np.array(POS[dim][:norb])
+    lat, orb = np.array(LATS[dim]), np.array(ptb_pos(dim, norb))
     if layout == "1.x":
         m._lat, m._orb, m._norb = lat, orb, norb
         m._hoppings = [[a, i, j, np.array(R)] for a, i, j, R in hops]
@@ -190,11 +197,12 @@ def check_import(rec, system, dim, n, nspin, pos, Rs, href_conv, href_Ronly, tag
     HmR = sarr(np.array([np.conjugate(np.asarray(Ham[idx[tuple(-x for x in r)]], dtype=object).T) for r in got], dtype=object))
     rec.eq(f"{tag}: Ham(-R) == Ham(R)^+", Ham, HmR, key=f"{tag} import: Ham_R not Hermitian")
     # centres and lattice
-    wc = np.array([pad3(np.array(p) % 1.0) for p in pos for _ in range(nspin)])
+    wc = np.array([pad3(np.array(p)) for p in pos for _ in range(nspin)])
     rl = np.eye(3)
     rl[:dim, :dim] = np.array(LATS[dim])
-    ok = np.allclose(system.wannier_centers_red, wc, atol=1e-12) and np.allclose(system.real_lattice, rl, atol=1e-12) and system.num_wann == n
-    rec.concrete(f"{tag}: lattice, centres (mod 1), num_wann", bool(ok), key=f"{tag} import: lattice / centres / num_wann differ from the model")
+    dwc = np.asarray(system.wannier_centers_red, dtype=float) - wc if np.shape(system.wannier_centers_red) == wc.shape else np.full(wc.shape, 0.5)
+    ok = np.allclose(dwc, np.round(dwc), atol=1e-12) and np.allclose(system.real_lattice, rl, atol=1e-12) and system.num_wann == n
+    rec.concrete(f"{tag}: lattice, centres (equal to the orbital positions up to lattice vectors), num_wann", bool(ok), key=f"{tag} import: lattice / centres / num_wann differ from the model")
     # H(k) at concrete k: documented formula incl. position phases, gauge transformed
     kc = np.array(KCONC[:nkc])
     Hk = h_wb(system, kc)
@@ -243,7 +251,7 @@ def sym_ptb_data(hopspec, norb, nspin):
 def case_ptb(rec, layout, dim, norb, nspin, hopspec, nkc):
     _quiet()
     hops, onsite = sym_ptb_data(hopspec, norb, nspin)
-    pos = POS[dim][:norb]
+    pos = ptb_pos(dim, norb)
 
     def body(rec):
         rec.witness = lambda env: dict(kind="ptb", layout=layout, dim=dim, norb=norb, nspin=nspin, hopspec=[[i, j, list(R)] for i, j, R in hopspec],
@@ -562,7 +570,7 @@ def _replay_import(w, kc, buf):
             hops = [(a, i, j, R) for a, (i, j, R) in zip(amps, hopspec)]
             with patched_modules(pythtb=fake_pythtb("1.9.0" if w["layout"] == "1.x" else "2.0.0")):
                 system = TB.get_system_tb_py(ptb_duck(w["layout"], dim, norb, nspin, hops, onsite), 'pythtb')
-            pos, n = POS[dim][:norb], norb * nspin
+            pos, n = ptb_pos(dim, norb), norb * nspin
             ref = lambda k: href_pythtb(hops, onsite, k, norb, nspin, pos, True).astype(complex)
             refgauge = True
         Hk = h_wb(system, kc)
